@@ -121,11 +121,13 @@ def eq(a, b):
 
 
 def smin(a, b):
-    return ite(a < b, a, b)
+    """min(a, b) as CPython computes it: the FIRST minimal argument (matters natively when True meets 1)"""
+    return ite(b < a, b, a)
 
 
 def smax(a, b):
-    return ite(a > b, a, b)
+    """max(a, b) as CPython computes it: the FIRST maximal argument"""
+    return ite(b > a, b, a)
 
 
 # ---- context-directed operations -------------------------------------------
